@@ -150,6 +150,34 @@ def quadrature_examples():
     assert near(L, 3 * math.sqrt(2))
 
 
+@check
+def shaperef_examples():
+    from .ref import bboxref as B
+    from .ref import shaperef as H
+
+    # SVG 2 10.2 radii rules
+    assert H.resolve_rect_radii(100, 40, None, None) == (0.0, 0.0)
+    assert H.resolve_rect_radii(100, 40, 10, None) == (10.0, 10.0)
+    assert H.resolve_rect_radii(100, 40, None, 15) == (15.0, 15.0)
+    assert H.resolve_rect_radii(100, 40, 80, 30) == (50.0, 20.0)  # clamped to half the sides
+    assert H.resolve_rect_radii(100, 40, None, ("%", 25)) == (10.0, 10.0)  # ry 25% of the height, rx auto = ry
+    assert H.resolve_rect_radii(100, 40, ("%", 25), None) == (25.0, 20.0)  # rx 25% of the width; ry auto = 25, clamped to half the height
+    assert H.resolve_rect_radii(100, 40, 0, 10) == (0.0, 0.0)
+    assert H.resolve_rect_radii(100, 40, -5, 10) == (10.0, 10.0)  # negative is invalid -> auto
+    # the SVG 2 example rect x=100 y=100 width=400 height=200 rx=50: path M150,100 H450 A50,50 0 0 1 500,150 V250 A... Z
+    r = H.equivalent("rect", {"x": 100, "y": 100, "width": 400, "height": 200, "rx": 50, "ry": 50})
+    assert "".join(k for k, _ in r) == "MLALALALAZ"
+    assert near(B.point(r[0][1], 0), (150, 100)) and near(B.point(r[1][1], 1), (450, 100))
+    assert near(B.point(r[2][1], 0), (450, 100)) and near(B.point(r[2][1], 1), (500, 150)) and near(B.point(r[2][1], 0.5), (450 + 50 * math.cos(math.pi / 4), 150 - 50 * math.sin(math.pi / 4)))
+    assert near(B.point(r[4][1], 1), (450, 300)) and near(B.point(r[6][1], 1), (100, 250)) and near(B.point(r[8][1], 1), (150, 100))
+    # circle: starts at cx+r, first arc ends at (cx, cy+r)
+    c = H.equivalent("circle", {"cx": 10, "cy": 20, "r": 5})
+    assert "".join(k for k, _ in c) == "MAAAAZ" and near(B.point(c[0][1], 0), (15, 20)) and near(B.point(c[1][1], 1), (10, 25)) and near(B.point(c[2][1], 1), (5, 20)) and near(B.point(c[4][1], 1), (15, 20))
+    assert H.equivalent("rect", {"x": 0, "y": 0, "width": 0, "height": 5}) == [] and H.equivalent("ellipse", {"cx": 0, "cy": 0, "rx": 3, "ry": 0}) == []
+    assert "".join(k for k, _ in H.equivalent("polygon", {"points": [(0, 0), (1, 0), (1, 1)]})) == "MLLZ"
+    assert "".join(k for k, _ in H.equivalent("polyline", {"points": [(0, 0)]})) == "M"
+
+
 def main():
     failed = 0
     for f in CHECKS:
